@@ -131,6 +131,33 @@ def check_start(ctx, prog):
     ctx.floor("C14.L2s", 4)
 
 
+def nonnull_rule(ctx, prog):
+    """L1n: the null-pointer guards the other rules find in the source are also what the compiler keeps.  A declaration that marks a
+    parameter `nonnull` (or a return value `returns_nonnull`) lets an optimising compiler delete the very test `process == NULL`
+    that turns misuse into an error return - the guard is then present in every source-level analysis and absent from the
+    library.  Lexical scan (comments and strings blanked) of every header and source file of the library, macros included."""
+    import glob
+    import os
+    import re
+    root = prog.root
+    files = []
+    for pat in ("reproc/include/reproc/*.h", "reproc/src/*.h", "reproc/src/*.c", "reproc++/include/reproc++/**/*.hpp", "reproc++/src/*.cpp"):
+        files += glob.glob(os.path.join(root, pat), recursive=True)
+    hits = []
+    for path in sorted(files):
+        text = open(path, errors="replace").read()
+        text = re.sub(r"/\*.*?\*/", lambda m: re.sub(r"[^\n]", " ", m.group(0)), text, flags=re.S)
+        text = re.sub(r"//[^\n]*", "", text)
+        text = re.sub(r'"(\\.|[^"\\\n])*"', '""', text)
+        for ln, line in enumerate(text.split("\n"), 1):
+            if re.search(r"\b(__nonnull|nonnull|returns_nonnull|_Nonnull|__attribute_nonnull__)\b", line):
+                hits.append("%s:%d %s" % (os.path.relpath(path, root), ln, line.strip()[:60]))
+    if len(files) < 30:
+        raise AnalysisBroken("C14.L1n: only %d library files found" % len(files))
+    ctx.ob("C14.L1n", "library: nonnull annotations", "no declaration tells the compiler that a pointer parameter is never null: the "
+           "null-handle guards stay in the compiled library", not hits, {"files_scanned": len(files), "annotations": hits[:4]})
+
+
 def check(ctx):
     prog = ctx.prog("posix-mt")
     check_new(ctx, prog)
@@ -154,5 +181,6 @@ def check(ctx):
     F13 = prog.fn("parse_redirect")
     if {"redirect", "stream", "parent", "discard", "file", "path"} <= {x["name"] for x in F13.params}:
         c13.check_redirect(ctx, prog)      # a type without its handle / file / path is rejected (the constructors dereference them)
+    nonnull_rule(ctx, prog)
     R.exited_is_quiet(ctx, prog, "C14.L2q")
     R.c14_asserts(ctx)
